@@ -381,3 +381,60 @@ Example ctrl_accept_example :
   /\ c_ctrl_rsp (Some (true, str_CMD_POWERON)) (str_RSP_POWERON ++ [32; 49; 0]) = CrRejected 1
   /\ c_ctrl_rsp (Some (true, str_CMD_MEASURE)) (str_RSP_MEASURE_0 ++ [32; 57; 51; 53; 50; 48; 48; 32; 45; 55; 55; 0]) = CrAccepted 0 (ActMeasure 9352 (Some (1, -77))).
 Proof. repeat split; vm_compute; reflexivity. Qed.
+
+(* ---------------- SETFH: how long the command can get (C05: the peer's receive buffer must hold it) ---------------- *)
+Lemma c_setfh_ma_len ma : forall room acc rc txt, 0 <= room -> c_setfh_ma ma room acc = (rc, txt) ->
+  Z.of_nat (length txt) <= Z.of_nat (length acc) + room.
+Proof.
+  induction ma as [|a ma IH]; intros room acc rc txt Hr H; cbn [c_setfh_ma] in H.
+  - injection H as _ <-. lia.
+  - destruct ((arfcn2freq10 a false =? 65535) || (arfcn2freq10 a true =? 65535)); [injection H as _ <-; lia|].
+    set (t := dec_u (arfcn2freq10 a false * 100) ++ [SP] ++ dec_u (arfcn2freq10 a true * 100) ++ [SP]) in *.
+    destruct (Z.of_nat (length t) >? room) eqn:E; [injection H as _ <-; lia|].
+    apply IH in H; [|lia]. rewrite app_length in H. lia.
+Qed.
+
+Lemma sweep_dec_u8 : forallb (fun n => Nat.leb (length (dec_u n)) 3) (range 0 256) = true.
+Proof. vm_compute. reflexivity. Qed.
+Lemma dec_u8_len n : (length (dec_u (u8 n)) <= 3)%nat.
+Proof.
+  assert (H : 0 <= u8 n < 256) by (unfold u8; lia).
+  pose proof (forallb_range _ _ _ sweep_dec_u8 (u8 n) H) as E. cbv beta in E. apply Nat.leb_le in E. exact E.
+Qed.
+
+Lemma c_ctrl_cmd_len V args : (length (c_ctrl_cmd V args) <= length (s_CMD ++ V ++ [SP] ++ args))%nat.
+Proof.
+  unfold c_ctrl_cmd. destruct args as [|a args]; rewrite firstn_length, !app_length; cbn [length]; lia.
+Qed.
+
+(* whatever the hopping parameters, the SETFH command has at most 1016 characters (1017 octets with the NUL): it always fits
+   trxcon's own cmd[1024] and is never truncated by snprintf *)
+Theorem setfh_len_bound hsn maio ma rc q crit text :
+  c_phyif_cmd (PSetFreqH1 hsn maio ma) = CmdQ rc q -> In (crit, text) q -> (length text <= 1016)%nat.
+Proof.
+  intros Hc Hin. cbn [c_phyif_cmd] in Hc. destruct ma as [|a ma]; [injection Hc as <- <-; destruct Hin|].
+  destruct gen_trxif_consts as [Eb [_ [_ [_ [_ [_ Ec]]]]]]. rewrite Eb in Hc.
+  destruct (c_setfh_ma (a :: ma) (1024 - 24 - 1) []) as [rc' txt] eqn:Em.
+  destruct (negb (rc' =? 0)); injection Hc as <- <-; [destruct Hin|].
+  destruct Hin as [E | []]. injection E as <- <-.
+  apply c_setfh_ma_len in Em; [|lia]. cbn [length] in Em.
+  assert (Hrl : (length (removelast txt) <= 998)%nat).
+  { destruct txt as [|x txt] using rev_ind; [cbn; lia|]. rewrite removelast_last. rewrite app_length in Em. cbn [length] in Em. lia. }
+  pose proof (dec_u8_len hsn) as H1. pose proof (dec_u8_len maio) as H2.
+  eapply Nat.le_trans; [apply c_ctrl_cmd_len|].
+  unfold s_CMD, v_SETFH. repeat (rewrite app_length || cbn [length app]). lia.
+Qed.
+
+(* 64 channels of GSM 900 (six-digit kHz values): 911 characters; 62 channels of DCS 1800 (seven digits): 1007; 63 do not fit *)
+Example setfh_longest :
+  (match c_phyif_cmd (PSetFreqH1 63 63 (map (fun i => 1 + Z.of_nat i) (seq 0 64))) with CmdQ 0 [(true, t)] => length t | _ => O end) = 911%nat
+  /\ (match c_phyif_cmd (PSetFreqH1 63 63 (map (fun i => 512 + Z.of_nat i) (seq 0 62))) with CmdQ 0 [(true, t)] => length t | _ => O end) = 1007%nat
+  /\ c_phyif_cmd (PSetFreqH1 63 63 (map (fun i => 512 + Z.of_nat i) (seq 0 63))) = CmdQ E_NOSPC [].
+Proof. repeat split; vm_compute; reflexivity. Qed.
+
+(* the PCS formula of arfcn2freq10 agrees with the table dumped from the real gsm_arfcn2freq10 (ARFCN 0..1023 | ARFCN_PCS) *)
+Lemma sweep_freq_pcs : forallb (fun a =>
+    match nth_error freq10_pcs (Z.to_nat a) with
+    | Some (dl, ul) => (arfcn2freq10 (a + arfcn_pcs) false =? dl) && (arfcn2freq10 (a + arfcn_pcs) true =? ul)
+    | None => false end) (range 0 1024) = true.
+Proof. vm_compute. reflexivity. Qed.
